@@ -65,7 +65,10 @@ pub fn rule_docs(ls: &LangSpec, variant: usize, with_fix: bool) -> Vec<Value> {
   if with_fix {
     v[0]["fix"] = json!("foo2($A)");
   }
-  if variant % 5 == 3 {
+  if variant % 4 == 3 {
+    // a rule file with exactly one rule (the one most suppression comments of the texts name)
+    v.truncate(1);
+  } else if variant % 5 == 3 {
     v.rotate_left(2); // another rule (still of the document's language) comes first
   }
   v
@@ -462,7 +465,7 @@ pub fn drive(vectors: &str, seed: u64, out: &str, thorough: bool) {
   let per_lang = if thorough { 40 } else { 6 };
   let mut n_fe = 0;
   for (li, ls) in LANGS.iter().enumerate() {
-    for variant in 0..(if thorough { 6 } else { 3 }) {
+    for variant in 0..(if thorough { 8 } else { 4 }) {
       let variant = variant + (seed as usize % 5);
       let docs = rule_docs(ls, variant, variant % 2 == 0);
       let lsp_root = format!("{scratch}/lsp");
